@@ -107,3 +107,53 @@ contract(TR + "query_ast_visitor.visit_Attribute", props=["C10", "C09"],
               "expr_of(rep_of(node)) == replace(ns_text(field(field(final_obj, '_enum'), 'ns', '" + ENI + "')) + '::' + field(node, 'attr'), '.', '::'))"),
              ("anything_else_is_refused@C09", "isinst(final_obj, '" + CVAL + "') or isinst(final_obj, '" + CPPNS + "') or isinst(final_obj, '" + CPPEN + "')"),
          ])
+# ---- tuples / lists / dicts: one representation per element, in order, evaluated without moving the cursor; ** splat refused -----------
+TUPC = P + "cpp_representation.cpp_tuple"
+DICTC = P + "cpp_representation.cpp_dict"
+_TL_LOOP = {"comp1": dict(sorts={"_comp1": TList(REP)}, modifies=CVC_MODIFIES,
+                          invariant=CVC_LOOP_INV + [("L.len", "len(_comp1) == _i"),
+                                                    ("L.cursor", "seq_eq(cursor(self), old(cursor(self)))"),
+                                                    ("L.values", "all(_comp1[k] != None and live(_comp1[k]) for k in range(0, _i))")])}
+for _fn, _par, _cls in [("visit_Tuple", "tuple_node", "ast.Tuple"), ("visit_List", "list_node", "ast.List")]:
+    contract(TR + "query_ast_visitor." + _fn, props=["C03", "C01"],
+             params={"self": QV, _par: RefOf(_cls)},
+             requires=CVC_REQUIRES + [("elements", "all(e != None and live(e) for e in field(" + _par + ", 'elts'))")],
+             modifies=CVC_MODIFIES + ["_values@" + TUPC, "_scope"], may_raise=["Exception"], strict=False,
+             ensures=CVC_ENSURES + [
+                 ("one_value_per_element_in_order@C03", "rep_of(" + _par + ") != None and is_new(rep_of(" + _par + ")) and cls_is(rep_of(" + _par + "), '" + TUPC + "') and "
+                                                        "len(field(rep_of(" + _par + "), '_values', '" + TUPC + "')) == len(field(" + _par + ", 'elts')) and "
+                                                        "all(v != None and live(v) for v in field(rep_of(" + _par + "), '_values', '" + TUPC + "'))"),
+                 ("cursor_kept@C01", "seq_eq(cursor(self), old(cursor(self)))"),
+             ], loops=_TL_LOOP)
+
+contract(TR + "query_ast_visitor.visit_Dict", props=["C03", "C09", "C01"],
+         params=dict(self=QV, node=RefOf("ast.Dict")),
+         requires=CVC_REQUIRES + [("values", "all(e != None and live(e) for e in field(node, 'values')) and len(field(node, 'keys')) == len(field(node, 'values'))")],
+         modifies=CVC_MODIFIES + ["_values@" + DICTC, "_scope"], may_raise=["Exception"], strict=False,
+         raises={"ValueError": "any(k == None for k in field(node, 'keys'))"},
+         ensures=CVC_ENSURES + [
+             ("dict_rep@C03", "rep_of(node) != None and is_new(rep_of(node)) and cls_is(rep_of(node), '" + DICTC + "')"),
+             ("every_key_is_kept@C03", "all(k in field(rep_of(node), '_values', '" + DICTC + "') for k in field(node, 'keys'))"),
+             ("cursor_kept@C01", "seq_eq(cursor(self), old(cursor(self)))"),
+         ],
+         loops={"comp2": dict(sorts={"_comp2": TDict(Ref, Ref)}, modifies=CVC_MODIFIES,
+                              invariant=CVC_LOOP_INV + [("L.cursor", "seq_eq(cursor(self), old(cursor(self)))"),
+                                                        ("L.keys", "all(field(node, 'keys')[j] in _comp2 for j in range(0, _i))")])})
+
+# ---- names: a bound name stands for whatever it was bound to; an unbound one gets no representation (so get_rep refuses it) -------------
+contract(TR + "query_ast_visitor.visit_Name", props=["C09", "C01"],
+         params=dict(self=QV, name_node=RefOf("ast.Name")),
+         requires=CVC_REQUIRES, modifies=CVC_MODIFIES, may_raise=["Exception"], strict=False,
+         local_sorts=dict(id=Ref),
+         ensures=CVC_ENSURES + [
+             ("bound_name_stands_for_its_binding@C01", "implies(final_id != None, rep_of(name_node) != None and rep_of(name_node) == rep_of(final_id))"),
+         ])
+
+# ---- calls: dispatched by the kind of callee; an unknown callee without a representation is refused -------------------------------------
+contract(TR + "query_ast_visitor.visit_Call", props=["C09"],
+         params=dict(self=QV, call_node=CALLN),
+         requires=CVC_REQUIRES + [("callee", "field(call_node, 'func') != None and live(field(call_node, 'func')) and all(a != None and live(a) for a in field(call_node, 'args'))")],
+         modifies=CVC_MODIFIES + ["_type", "_p_depth", "_is_const", "_tree_type", "_expression", "_scope", "_cpp_type", "_initial_value", "_line", "_target", "_value",
+                                 "ghost:arg_frames"],
+         may_raise=["Exception"], strict=False,
+         ensures=[("a_call_that_returns_has_a_value@C09", "rep_of(call_node) != None")])
